@@ -70,7 +70,7 @@ StepOf(i, ev) ==
               \/ (ev.e = "Start" /\ t \in DOMAIN C.prog)
               \/ (ev.e \in {"TpInlineCheck", "TpFqLoadThreads"} /\ AtPc(w0, t, ev.e))
       k == IF ev.e = "TsPkgLoadCancel" THEN PkgId(i, ev) ELSE 0
-      own == ev.e = "TsPkgLoadCancel" /\ Depth(w0, t) > 0 /\ Top(w0, t).pend # <<>> /\ Head(Top(w0, t).pend) = k
+      own == ev.e = "TsPkgLoadCancel" /\ Depth(w0, t) > 0 /\ k \in Range(Top(w0, t).pend)
       w1 == IF ~mine THEN w0
             ELSE Dispatch(IF own \/ ev.e \in {"TpInlineCheck", "TpFqLoadThreads"} THEN w0 ELSE Finalize(w0, t), t, ev.e, k)
       returns == HasTag(notes, "ret") /\ w1.ok /\ Depth(w1, t) > 0 /\ Top(w1, t).pc \in {"OpRet", "InPool", "PoEnq", "PoAny"}
